@@ -48,3 +48,37 @@ Print Assumptions C13_Q_is_orthonormal.
 Example C13_orthonormal_instance :
   FieldLaws SumRounding.RS /\ forall M v, smul SumRounding.RS (sqrt (dotc SumRounding.RS M v v)) (sqrt (dotc SumRounding.RS M v v)) = dotc SumRounding.RS M v v.
 Proof. exact (conj RS_field sqrt_norm_sq). Qed.
+
+(** * Tie to the source (translator).  qr_mgsr_dispatcher of unary_qr_op.h is translated on every run (statement
+    structure: A = copy of A0; R.fill(0); for i < N { steps 1-4 with loops k < M, j0 <= j < N } - nothing else is
+    accepted; every matrix access as a (row, column) pair; the first column j0 of the inner loops).  One iteration
+    [step] of the model satisfies the four statements of the source read with the source's own index expressions,
+    and changes nothing else. *)
+From FastorV Require Import Gen.GeneratedAccess Proofs.GenQREq.
+Theorem C13_source_statements :
+  forall (S : Scalar) (M : nat) (nrm : (nat -> S) -> S) (s : st S) (i j k : nat),
+    let s' := step S M nrm s i in
+    let rii := nrm (fun k => at_ (Aw S s) (qix i 0 k 0)) in
+    (qix i j k 0 = qix i j k 1 /\ at_ (Rm S s') (qix i j k 2) = rii) /\
+    at_ (Qm S s') (qix i j k 3) = sdiv S (at_ (Aw S s) (qix i j k 4)) rii /\
+    (nth 0 (gen_qr_mgs_inner_start i) 0 <= j ->
+       at_ (Rm S s') (qix i j k 5) = sum_n (fun k' => smul S (at_ (Qm S s') (qix i j k' 6)) (at_ (Aw S s) (qix i j k' 7))) M) /\
+    (nth 1 (gen_qr_mgs_inner_start i) 0 <= j ->
+       at_ (Aw S s') (qix i j k 8) = ssub S (at_ (Aw S s) (qix i j k 8)) (smul S (at_ (Qm S s') (qix i j k 9)) (at_ (Rm S s') (qix i j k 10)))).
+Proof. intros. exact (conj (qr_step1 S M nrm s i j k) (conj (qr_step2 S M nrm s i j k) (conj (qr_step3 S M nrm s i j k) (qr_step4 S M nrm s i j k)))). Qed.
+Print Assumptions C13_source_statements.
+
+Theorem C13_source_frame :
+  forall (S : Scalar) (M : nat) (nrm : (nat -> S) -> S) (s : st S) (i k p j : nat),
+    let s' := step S M nrm s i in
+    (p <> i -> Qm S s' k p = Qm S s k p) /\ (p <> i -> Rm S s' p j = Rm S s p j) /\
+    (j < nth 1 (gen_qr_mgs_inner_start i) 0 -> Aw S s' k j = Aw S s k j).
+Proof. intros. exact (qr_frame S M nrm s i k p j). Qed.
+Print Assumptions C13_source_frame.
+
+Theorem C13_source_indices :
+  forall i j k,
+    gen_qr_mgs_indices i j k = [(k, i); (k, i); (i, i); (k, i); (k, i); (i, j); (k, i); (k, j); (k, j); (k, i); (i, j)] /\
+    gen_qr_mgs_inner_start i = [i + 1; i + 1].
+Proof. exact gen_qr_mgs_indices_eq. Qed.
+Print Assumptions C13_source_indices.
